@@ -6,8 +6,10 @@
      core/workflow/safestatus.go  aggregateStatus, SafeStatus.merge
      core/workflow/taskrole.go, callrole.go, aggregatorrole.go   updateState / updateStatus
      core/workflow/aggregator.go  GetRoles (iterator roles are spliced into their parent)
+     the lock discipline of SafeState / SafeStatus (merge, get), as counted from the source by the
+     translator mergeatomic (gen/Gen_MergeAtomic.v): section 7b
    Definitions only; lemmas live in proofs/RoleTree_proofs.v. *)
-From Verif Require Import Common Gen_StateX Gen_StatusX Gen_StatusProduct.
+From Verif Require Import Common Gen_StateX Gen_StatusX Gen_StatusProduct Gen_MergeAtomic.
 Open Scope N_scope.
 
 (* ------------------------------------------------------------------ *)
@@ -377,6 +379,98 @@ Definition run_alone (p : list nat) (v : state) (t : rtree) : cstate :=
   run_sched (repeat 0%nat (alone_steps p)) (cinit t [(p, v)]).
 
 (* ------------------------------------------------------------------ *)
+(* 7b. Is a merge one step?  The lock discipline read from the source,  *)
+(*     and the semantics when it is not                                 *)
+(* ------------------------------------------------------------------ *)
+
+(* Section 7 makes every merge one atomic step.  That is true of the code only because
+   SafeState.merge / SafeStatus.merge hold the role's write lock from their first statement to
+   every way out, around the comparison with the cache, the re-aggregation of the children and
+   the store.  Gen_MergeAtomic.v is what the translator counted in the method bodies; these
+   predicates say which counts mean "one critical section around everything". *)
+Definition section_ok (f : lock_facts) : bool :=
+  negb (N.eqb (lf_entry f) 0) &&          (* the first statement takes the lock *)
+  N.eqb (lf_locks f) 1 &&                 (* it is taken once: no Unlock ... Lock inside *)
+  N.eqb (lf_leaks f) 0 &&                 (* released on every way out *)
+  (if lf_deferred f then N.eqb (lf_unlocks f) 0 else true) &&
+  N.eqb (lf_unlock_free f) 0 &&
+  N.eqb (lf_agg_out f) 0 &&               (* children re-aggregated under the write lock *)
+  N.eqb (lf_writes_out f) 0 &&            (* cache written under the write lock *)
+  N.eqb (lf_reads_out f) 0 &&             (* cache read under a lock *)
+  N.eqb (lf_spawns f) 0.                  (* nothing in another goroutine / closure *)
+
+Definition merge_ok (f : lock_facts) : bool :=
+  section_ok f && N.eqb (lf_entry f) 1 && N.leb 1 (lf_agg f) && N.leb 1 (lf_writes f).
+Definition get_ok (f : lock_facts) : bool :=
+  section_ok f && N.leb 1 (lf_reads f) && N.eqb (lf_writes f) 0.
+
+Definition state_merge_atomic : bool :=
+  merge_ok state_merge_facts && get_ok state_get_facts && forallb section_ok state_other_methods &&
+  N.eqb direct_accesses_runtime 0.
+Definition status_merge_atomic : bool :=
+  merge_ok status_merge_facts && get_ok status_get_facts && forallb section_ok status_other_methods &&
+  N.eqb direct_accesses_runtime 0.
+Definition merge_is_atomic : bool := state_merge_atomic && status_merge_atomic.
+
+(* The schedules of section 7 with a switch.  [atomic = true]: exactly [cstep].  [atomic = false]:
+   a merge that takes the recompute branch (no shortcut applies) is two steps with the lock
+   released in between, as in
+       t.mu.Unlock(); aggregated := aggregateState(r.GetRoles()); t.mu.Lock(); t.state = aggregated
+   - first the token moves to the aggregator and remembers the fold of the children as they are
+     now ([g_pend] = Some aggregate, the cache is untouched),
+   - later it stores what it remembered.
+   Anything may happen in between.  The shortcut branches stay one step. *)
+Definition merge_recomputes (cache s : state) : bool :=
+  negb (state_beq cache s) &&
+  negb (state_beq s MIXED && negb (state_beq cache ERROR)) &&
+  negb (state_beq s ERROR).
+
+Definition set_st_f (a : state) (t : rtree) : rtree :=
+  match t with Agg _ x cs => Agg a x cs | Leaf _ _ _ => t end.
+
+Record gstate := mkG { g_c : cstate; g_pend : list (option state) }.
+
+Definition gstep_split (i : nat) (g : gstate) : gstate :=
+  let c := g_c g in
+  match nth_error (c_toks c) i with
+  | None => g
+  | Some k =>
+      match nth i (g_pend g) None with
+      | Some a =>
+          mkG (mkC (map_at (tk_path k) (set_st_f a) (c_tree c)) (c_toks c) (c_adapter c))
+              (replace_nth i None (g_pend g))
+      | None =>
+          match tk_ph k, tk_path k with
+          | PFwd, _ :: _ =>
+              let p' := removelast (tk_path k) in
+              match get_sub p' (c_tree c) with
+              | Some (Agg st _ cs) =>
+                  if merge_recomputes st (tk_val k)
+                  then mkG (mkC (c_tree c) (replace_nth i (mkTok p' (tk_val k) PRead) (c_toks c))
+                                (c_adapter c))
+                           (replace_nth i (Some (fold_state cs)) (g_pend g))
+                  else mkG (cstep i c) (g_pend g)
+              | _ => mkG (cstep i c) (g_pend g)
+              end
+          | _, _ => mkG (cstep i c) (g_pend g)
+          end
+      end
+  end.
+
+Definition gstep (atomic : bool) (i : nat) (g : gstate) : gstate :=
+  if atomic then mkG (cstep i (g_c g)) (g_pend g) else gstep_split i g.
+
+Definition run_sched_g (atomic : bool) (sched : list nat) (g : gstate) : gstate :=
+  fold_left (fun g i => gstep atomic i g) sched g.
+
+Definition ginit (t : rtree) (ups : list (list nat * state)) : gstate :=
+  mkG (cinit t ups) (map (fun _ => None) ups).
+
+Definition no_pend (o : option state) : bool := match o with None => true | Some _ => false end.
+Definition gquiescent (g : gstate) : bool := quiescent (g_c g) && forallb no_pend (g_pend g).
+Definition g_tree (g : gstate) : rtree := c_tree (g_c g).
+
+(* ------------------------------------------------------------------ *)
 (* 8. Decidable equalities for observations                            *)
 (* ------------------------------------------------------------------ *)
 
@@ -434,7 +528,15 @@ Inductive c11_case :=
 | CPerm (t0 : rtree) (ops : list op) (final : rtree)
         (pt : ptree) (t0' : rtree) (ops' : list op) (final' : rtree)
 (* the same updates in two orders that keep the per-leaf order *)
-| CComm (t0 : rtree) (ops1 : list op) (final1 : rtree) (ops2 : list op) (final2 : rtree).
+| CComm (t0 : rtree) (ops1 : list op) (final1 : rtree) (ops2 : list op) (final2 : rtree)
+(* two updates of different leaves below the aggregator at [pP], the first one (B) stopped INSIDE
+   the re-aggregation of [pP] (a gate in front of one of its children, behind the branch of the
+   second leaf) while the second one (A) is started.  mode as in CSeq (0 loaded / 1 consistent
+   preset).  [parked]: B did reach the gate; [blocked]: A had not got past the merge of [pP] when
+   the harness gave up waiting and let B go on.  Then: B up to its event at [pP], A up to its
+   event at [pP], B to the end, A to the end; [final] tree and what the ParentAdapter received *)
+| CGate (mode : N) (t0 : rtree) (pP : list nat) (oB oA : op) (parked blocked : bool)
+        (final : rtree) (adapter : list N).
 
 (* --- model side of a sequential step --- *)
 (* RoleEvent carries State.String(), which prints INVARIANT (and anything above MIXED) as
@@ -514,6 +616,81 @@ Fixpoint check_segs (c : cstate) (segs : list (list nat * rtree)) : option cstat
       if rtree_eqb (c_tree c') snap then check_segs c' r else None
   end.
 
+(* --- model side of a gate case --- *)
+Definition op_is_state (o : op) : bool := match o with OpState _ _ => true | OpStatus _ _ => false end.
+
+(* the schedule the harness forces, in token steps (token 0 = B, token 1 = A): B writes its leaf
+   and merges up to and including [pP] (2 * distance steps), the same for A, B to the end, A to
+   the end.  Not parked: B to the end, then A *)
+Definition gate_sched (pP : list nat) (pB pA : list nat) (parked : bool) : list nat :=
+  (if parked
+   then repeat 0%nat (2 * (length pB - length pP)) ++ repeat 1%nat (2 * (length pA - length pP))
+   else []) ++ repeat 0%nat (alone_steps pB) ++ repeat 1%nat (alone_steps pA).
+
+(* status updates have no token semantics; the same interleaving written out: what arrives at the
+   node at [p] ([sub], and whether a value is handed upwards) is merged into every ancestor *)
+Fixpoint prop_status (p : list nat) (sub : rtree) (fwd : option status) (t : rtree) {struct p}
+  : rtree * option status :=
+  match p, t with
+  | [], _ => (sub, fwd)
+  | i :: p', Agg s x cs =>
+      match nth_error cs i with
+      | Some c =>
+          let (c', f) := prop_status p' sub fwd c in
+          let cs' := replace_nth i c' cs in
+          match f with
+          | Some inc => let x' := merge_status x inc cs' in (Agg s x' cs', Some x')
+          | None => (Agg s x cs', None)
+          end
+      | None => (t, None)
+      end
+  | _, _ => (t, None)
+  end.
+
+Definition reread (f : option status) (n : rtree) : option status :=
+  match f with Some _ => Some (stat_of n) | None => None end.
+Definition out_list (o : option status) : list N :=
+  match o with Some v => [N_of_status v] | None => [] end.
+
+Definition gate_status (pP rB : list nat) (vB : status) (rA : list nat) (vA : status) (t0 : rtree)
+  : option (rtree * list N) :=
+  match get_sub pP t0 with
+  | Some sub0 =>
+      let (sub1, fB) := upd_status rB vB sub0 in      (* B: leaf ... merge at pP *)
+      let (sub2, fA) := upd_status rA vA sub1 in      (* A: leaf ... merge at pP *)
+      let (t3, outB) := prop_status pP sub2 (reread fB sub2) t0 in   (* B re-reads pP, goes on *)
+      match get_sub pP t3 with
+      | Some sub3 =>
+          let (t4, outA) := prop_status pP sub3 (reread fA sub3) t3 in
+          Some (t4, out_list outB ++ out_list outA)
+      | None => None
+      end
+  | None => None
+  end.
+
+Definition is_prefix (p q : list nat) : bool := path_eqb p (firstn (length p) q).
+
+Definition gate_model_ok (pP : list nat) (oB oA : op) (parked : bool) (t0 final : rtree)
+           (adapter : list N) : bool :=
+  match oB, oA with
+  | OpState pB vB, OpState pA vA =>
+      let c := run_sched (gate_sched pP pB pA parked) (cinit t0 [(pB, vB); (pA, vA)]) in
+      rtree_eqb (c_tree c) final && quiescent c &&
+      list_eqb N.eqb (map N_of_state (c_adapter c)) adapter
+  | OpStatus pB vB, OpStatus pA vA =>
+      if parked then
+        match gate_status pP (skipn (length pP) pB) vB (skipn (length pP) pA) vA t0 with
+        | Some (t', ad) => rtree_eqb t' final && list_eqb N.eqb ad adapter
+        | None => false
+        end
+      else
+        let t1 := apply_op oB t0 in
+        let t2 := apply_op oA t1 in
+        rtree_eqb t2 final &&
+        list_eqb N.eqb (model_adapter oB t0 t1 ++ model_adapter oA t1 t2) adapter
+  | _, _ => false
+  end.
+
 Definition corr11 (c : c11_case) : bool :=
   match c with
   | CSeq mode t0 ops obs =>
@@ -533,6 +710,14 @@ Definition corr11 (c : c11_case) : bool :=
   | CComm t0 ops1 final1 ops2 final2 =>
       rtree_eqb (fresh t0) t0 &&
       rtree_eqb (run_ops ops1 t0) final1 && rtree_eqb (run_ops ops2 t0) final2
+  | CGate mode t0 pP oB oA parked blocked final adapter =>
+      (if N.eqb mode 0 then rtree_eqb (fresh t0) t0 else rtree_eqb (canon t0) t0) &&
+      is_prefix pP (op_path oB) && is_prefix pP (op_path oA) &&
+      negb (path_eqb (op_path oB) (op_path oA)) &&
+      (* every merge holds the aggregator's lock from the first to the last statement: A cannot
+         get through the merge of pP while B is inside it *)
+      (negb parked || blocked) &&
+      gate_model_ok pP oB oA parked t0 final adapter
   end.
 
 (* --- the monitor: the property evaluated on what the implementation showed --- *)
@@ -648,6 +833,13 @@ Definition conc_leaf_ok (ups : list (list nat * state)) (p : list nat) (a b : rt
   | mine => existsb (fun u => state_beq (snd u) (st_of b)) mine
   end.
 
+(* two updates of different leaves: each of the two leaves ends with the value sent to it, every
+   other leaf is unchanged *)
+Definition gate_leaf_ok (oB oA : op) (p : list nat) (a b : rtree) : bool :=
+  if path_eqb p (op_path oA) then seq_leaf_ok oA p a b
+  else if path_eqb p (op_path oB) then seq_leaf_ok oB p a b
+  else leaf_same a b.
+
 Fixpoint mon_steps (t : rtree) (ops : list op) (obs : list step_obs) : list N :=
   match ops, obs with
   | o :: ops', ob :: obs' =>
@@ -678,6 +870,9 @@ Definition mon11 (c : c11_case) : N :=
       if rtree_eqb (apply_perm pt final) final' then 0 else 11
   | CComm t0 ops1 final1 ops2 final2 =>
       if rtree_eqb final1 final2 then 0 else 12
+  | CGate mode t0 pP oB oA parked blocked final adapter =>
+      pick_code ((if leaves_ok (gate_leaf_ok oB oA) [] t0 final then 0 else 8) ::
+                 snap_codes [] final)
   end.
 
 (* --- branch tags (measured input distribution) --- *)
@@ -733,6 +928,8 @@ Definition tag11 (c : c11_case) : N :=
            + (if no_critless t0 then 0 else 2)
   | CPerm _ _ _ _ _ _ _ => 2000
   | CComm _ _ _ _ _ => 3000
+  | CGate _ _ _ oB _ parked _ _ _ =>
+      4000 + (if parked then 1 else 0) + (if op_is_state oB then 0 else 2)
   end.
 
 Definition report11 := report corr11 mon11 tag11.
